@@ -421,6 +421,9 @@ func getAttrs(attrs attribute.Set) ([]string, []string) {
 		for itr.Next() {
 			kv := itr.Attribute()
 			key := model.EscapeName(string(kv.Key), model.NameEscapingScheme)
+			// EscapeName applies the metric name rule, which allows colons;
+			// legacy label names must not contain them.
+			key = strings.ReplaceAll(key, ":", "_")
 			if _, ok := keysMap[key]; !ok {
 				keysMap[key] = []string{kv.Value.Emit()}
 			} else {
